@@ -156,6 +156,8 @@ pvtmix_scenario(int idx) {
 /* ---- a thread that ran pool thread 0 through tp_thread_attach_first() and left it again is an ordinary outside
  * thread afterwards: its sends must be treated as coming from outside. ---- */
 static int probe_runs = 0, probe_tid = -1, probe_cur = -2;
+static volatile int probe_started = 0, attach_gate = 0;
+static int tail_runs = 0, tail_sent_ok = 0, tail_wrong_thread = 0;
 static void
 attach_probe_cb(tpt_p tpt, void *udata) {	/* an ordinary message handled while the outside thread is pool thread 0 */
 	tpt_p c = tpt_get_current();
@@ -164,6 +166,17 @@ attach_probe_cb(tpt_p tpt, void *udata) {	/* an ordinary message handled while t
 	probe_tid = sc_self();
 	probe_cur = (NULL != c) ? (int)tpt_get_num(c) : -1;
 	sc_log("probe callback on attached thread: current=%d", probe_cur);
+	/* parked here while the helper queues the detach message and two more behind it: the three are then
+	 * fetched by one read, and the two must still run although the thread stops in between */
+	probe_started = 1;
+	sc_gate_wait(&attach_gate, "attach_gate");
+}
+
+static void
+attach_tail_cb(tpt_p tpt, void *udata) {
+	(void)udata; (void)tpt;
+	tail_runs ++;
+	if (0 != sc_self()) tail_wrong_thread ++;
 }
 
 static void
@@ -201,6 +214,12 @@ attach_scenario(int idx) {
 	sc_wait_quiescent();
 	if (1 != probe_runs || 0 != probe_tid || 0 != probe_cur)
 		sc_fail("attached-thread-message", "message to the attached thread 0: ran %d time(s), on scheduler thread T%d, tpt_get_current()=%d", probe_runs, probe_tid, probe_cur);
+	if (tail_runs < tail_sent_ok)
+		sc_fail("message-lost", "%d message(s) were accepted behind the detach message while thread 0 was busy (same read), %d ran", tail_sent_ok, tail_runs);
+	if (tail_runs > tail_sent_ok)
+		sc_fail("message-duplicated", "%d message(s) accepted behind the detach message, %d callback runs", tail_sent_ok, tail_runs);
+	if (tail_wrong_thread)
+		sc_fail("wrong-os-thread", "%d message(s) behind the detach message ran on another thread than the one that was pool thread 0", tail_wrong_thread);
 	if (NULL != tpt_get_current())
 		sc_log("note: tpt_get_current() still names a pool thread after the thread left the pool");	/* judged through its consequences below */
 	/* now an outside thread again; thread 0 is stopped */
@@ -216,8 +235,14 @@ c05_detach_sender(void *arg) {
 	for (i = 0; i < 50; i ++) {	/* until the attaching thread has marked thread 0 as started */
 		rc = tpt_msg_send(tp_thread_get(tpc_tp, 0), NULL, 0, attach_probe_cb, NULL);
 		if (0 == rc) {
+			int k;
+			sc_gate_wait(&probe_started, "probe_started");	/* thread 0 has read the probe alone and is inside its callback */
 			rc = tpt_msg_send(tp_thread_get(tpc_tp, 0), NULL, 0, attach_detach_cb, NULL);
 			if (0 != rc) sc_fail("harness", "detach send rc=%d", rc);
+			for (k = 0; k < 2; k ++) {
+				if (0 == tpt_msg_send(tp_thread_get(tpc_tp, 0), NULL, 0, attach_tail_cb, NULL)) tail_sent_ok ++;
+			}
+			attach_gate = 1;
 			return (NULL);
 		}
 		sc_yield("wait-for-attach");
